@@ -15,10 +15,23 @@ buffer of SUM(len)+K-1 bytes):
 The recurrences are solved symbolically (scev.py); nothing is executed."""
 from flow import *
 from mir import roots_of, DefUse, Place
-from scev import Sym, Aff, Agg, Path, recurrence
+from scev import pretty, Sym, Aff, Agg, Path, recurrence
+
+
+class _PrettyR:
+    """forwards to Results, printing loop-header symbols H(n) with the source names of the locals"""
+    def __init__(self, R):
+        self._R = R
+
+    def add(self, rule, body, instance, ok, where='', detail=''):
+        return self._R.add(rule, body, instance, ok, where, pretty(body, detail))
+
+    def __getattr__(self, k):
+        return getattr(self._R, k)
 
 
 def run(prog, R):
+    R = _PrettyR(R)
     R.rule('SCAN-1', 'blank-line scan: per piece of the split the offset accumulator advances by exactly len(piece)+1 and the line counter by exactly 1 (recurrences solved symbolically)')
     R.rule('SCAN-2', 'blank-line scan: the first non-blank piece is reported as (lines counted including it, offset accumulated before it, its first byte)')
     R.rule('SCAN-3', 'blank-line scan: when a buffer holds only blank pieces, exactly the complete lines are consumed (buffer length minus the unterminated last piece), the same amount is added to the file offset of the buffer start, the line counter is taken back by exactly one for the piece that is scanned again, and the buffer is compacted before it is refilled')
